@@ -477,3 +477,33 @@ func hash64(s string) uint64 {
 }
 
 var _ = os.Exit
+
+// EnvRuns executes body once for every vector of environment answers (vsched.Choose / map-order
+// choice points) it can encounter - an exhaustive DFS over the environment of sequential code.
+// after is called with the choice vector after each run.
+func EnvRuns(opts vsched.Options, body func(), after func(choices []int32)) int {
+	stack := [][]int32{nil}
+	n := 0
+	for len(stack) > 0 {
+		prefix := stack[len(stack)-1]
+		stack = stack[:len(stack)-1]
+		ex := vsched.Run(opts, prefix, body)
+		if d := ex.Divergence(); d != "" {
+			vsched.InternalError("EnvRuns: %s", d)
+		}
+		if ex.Verdict != "" {
+			vsched.InternalError("EnvRuns: sequential body ended with verdict %s %s", ex.Verdict, ex.Crash)
+		}
+		n++
+		after(ex.Choices)
+		for i := len(prefix); i < len(ex.Points); i++ {
+			for alt := ex.Points[i].N - 1; alt >= 1; alt-- {
+				np := make([]int32, i+1)
+				copy(np, ex.Choices[:i])
+				np[i] = int32(alt)
+				stack = append(stack, np)
+			}
+		}
+	}
+	return n
+}
